@@ -21,13 +21,14 @@ import (
 //   *ssa.Function, *ssa.Builtin, *Closure, *Native, nil (only for nil func).
 type Value any
 
-// FSym: a float64 whose value equals the real-sorted term L (error variables
-// are part of L and constrained in the path condition).
+// FSym is a symbolic (finite) float64: float = T*(1+d), |d| <= Rho (see
+// float.go). l is the materialised value term (nil until needed).
 type FSym struct {
-	L *sym.Lin
-	// Exact: no rounding error variable was introduced anywhere in the
-	// derivation (the float is exactly the value of L over program variables).
-	Exact bool
+	T       *sym.Lin
+	Rho     *big.Rat
+	l       *sym.Lin
+	intConv *sym.Lin // set for int->float conversions beyond 2^53: the integer
+	Exact   bool
 }
 
 type Cell struct {
